@@ -96,12 +96,12 @@ def plan(pid, tier, seed, fx):
     jobs = []
     if pid in ("C17", "C18"):
         fixtures = SYNC_FIX + ASYNC_FIX
-        nprog = 160 if thorough else 45
+        nprog = 160 if thorough else 30
         for f in fixtures:
             A = alphabet(fx, f, with_stats=(pid == "C17"))
             for pre in prefixes(fx, f):
                 jobs.append({"fixtures": [f], "prefix": pre, "programs": programs(rng, A, 2, 2, nprog),
-                             "strategy": {"kind": "dfs", "max_schedules": 120 if thorough else 40, "preempt": 2},
+                             "strategy": {"kind": "dfs", "max_schedules": 120 if thorough else 30, "preempt": 2},
                              "probe": probe_for(fx, f) if pid == "C18" else [], "hang_ms": 20000})
             # same-key races, exhaustively over a small alphabet (both threads hit the same entries)
             cn = fx[f]["cache_name"]
@@ -120,7 +120,7 @@ def plan(pid, tier, seed, fx):
                     progs.append({"id": 5000 + len(progs), "threads": [[dict(o) for o in s1], [dict(o) for o in s2]]})
             for pre in prefixes(fx, f)[1:]:
                 jobs.append({"fixtures": [f], "prefix": pre, "programs": progs,
-                             "strategy": {"kind": "dfs", "max_schedules": 200 if thorough else 60, "preempt": 2},
+                             "strategy": {"kind": "dfs", "max_schedules": 200 if thorough else 50, "preempt": 2},
                              "probe": probe_for(fx, f) if pid == "C18" else [], "hang_ms": 20000})
             if thorough:
                 jobs.append({"fixtures": [f], "prefix": prefixes(fx, f)[1], "programs": programs(rng, A, 3, 2, 60),
@@ -158,9 +158,12 @@ def run_conc_check(pid, tier, seed, wd):
     os.makedirs(REPLAYS, exist_ok=True)
     sample_job = None
 
+    thorough = tier == "thorough"
+
     def run_job(ij):
         i, job = ij
         job["tag"] = "job%d" % i
+        job.setdefault("max_log", 0 if thorough else 8)
         jp = os.path.join(wd, "conc_job_%d.json" % i)
         json.dump(job, open(jp, "w"))
         tp = os.path.join(wd, "conc_%d.ndjson" % i)
@@ -281,6 +284,7 @@ def lock_protocol_conformance(pid, tier, wd, all_tr, drift):
     # conformance of recorded schedules
     sel = os.path.join(wd, "conc_conf.ndjson")
     n = 0
+    nfine = 0
     with open(all_tr) as f, open(sel, "w") as g:
         for line in f:
             if '"ev":"quiesce"' not in line:
@@ -292,7 +296,16 @@ def lock_protocol_conformance(pid, tier, wd, all_tr, drift):
             cfgd, meta = rec["cfgs"][names[0]], rec["metas"][names[0]]
             if cfgd["policy"] not in ELIGIBLE_POL or cfgd["maxmem"] != 0 or meta["hasInv"] or rec.get("panic"):
                 continue
-            g.write(line)
+            # DashMap shard locks are scheduling points of the real run but Conc.tla treats DashMap
+            # operations as part of the surrounding lock-free code: replay only schedules in which no
+            # thread was preempted at a shard lock, with the shard grants removed
+            gr = rec["grants"]
+            fine = any(gr[i][1] == "shard" and gr[i - 1][0] != gr[i][0] for i in range(1, len(gr)))
+            if fine:
+                nfine += 1
+                continue
+            rec["grants"] = [x for x in gr if x[1] != "shard"]
+            g.write(json.dumps(rec) + "\n")
             n += 1
     ccfg = os.path.join(wd, "ConcTrace.cfg")
     write_cfg(ccfg, "CSpec", {"Quirks": set(), "CQuirks": set()}, invariants=["EndOK", "Done"])
@@ -308,4 +321,4 @@ def lock_protocol_conformance(pid, tier, wd, all_tr, drift):
     log("[%s] lock-protocol conformance: %d recorded schedules replayed grant by grant in Conc.tla, %d deviate" % (pid, n, nd))
     return {"mc": {"states": r["distinct"], "transitions": r["generated"], "constants": {k: sorted(v) if isinstance(v, set) else v for k, v in consts.items()},
                    "quirks_refuted": refuted},
-            "schedules_replayed": n, "deviating": nd}
+            "schedules_replayed": n, "deviating": nd, "shard_preempted_schedules_not_replayed": nfine}
